@@ -219,6 +219,40 @@ Qed.
 
 End C12_select.
 
+(* the chain for a LITERAL selector `{ s -> ... }` ("1 is one but 1.0 is other"): the number selected on is the literal's,
+   typed cardinal, and the operands handed to `rules` are the CLDR operands of the written digits (saturated beyond u64) *)
+Theorem C12_select_literal :
+  forall overflow_checks call_function transform formatter rules custom_as_string unescape_write unescape_to_string b args
+         fuel variants sc s l,
+  parse_literal s = Some l -> exact_guard l = true -> cache_ok rules (sc_intls sc) ->
+  exists n ops sc2,
+    fnumber_from_str f64_from_str_exact s = Some n /\ o_type (n_options n) = Cardinal /\
+    fnumber_operands n = Done ops /\ ops_agree ops (saturated_operands l) /\ cache_step rules sc sc2 /\
+    expression_write overflow_checks call_function transform formatter rules custom_as_string unescape_write
+      unescape_to_string f64_from_str_exact b args (S (S fuel)) (Select (NumberLiteral s) variants) sc =
+    match selected rules f64_from_str_exact n ops variants with
+    | Some value => pattern_write overflow_checks call_function transform formatter rules custom_as_string
+                      unescape_write unescape_to_string f64_from_str_exact b args (S fuel) value sc2
+    | None => Done ([], add_error sc2 MissingDefault)
+    end.
+Proof.
+  intros until l. intros Hp Hg Hok. apply parse_literal_sound in Hp as [Hwf ->].
+  assert (Hops : fnumber_operands (literal_number l) = Done (literal_operands l))
+    by (apply operands_literal; [exact Hwf | now apply guard_no_panic]).
+  assert (Hd : fval_digits (n_value (literal_number l)) = true)
+    by (eapply f64_from_str_exact_digits; apply f64_exact_literal; exact Hwf).
+  assert (Hir : inline_resolve overflow_checks call_function transform formatter rules custom_as_string unescape_write
+                  unescape_to_string f64_from_str_exact b args (S fuel) (NumberLiteral (lit_text l)) sc =
+                Done (VNumber (literal_number l), sc))
+    by (cbn [inline_resolve]; unfold try_number; now rewrite from_str_literal).
+  destruct (select_expression overflow_checks call_function transform formatter rules custom_as_string unescape_write
+              unescape_to_string f64_from_str_exact b args f64_from_str_exact_digits (S fuel) (NumberLiteral (lit_text l))
+              variants sc (literal_number l) sc (literal_operands l) Hir Hd Hops Hok) as (sc2 & Hstep & E).
+  exists (literal_number l), (literal_operands l), sc2.
+  split; [now apply from_str_literal|]. split; [reflexivity|]. split; [exact Hops|].
+  split; [now apply literal_operands_agree|]. split; [exact Hstep | exact E].
+Qed.
+
 (* ---------- non-vacuity and the examples of the property text ---------- *)
 Definition bs (x : string) : bytes := bytes_of_string x.
 Definition ex_parse (x : string) : option fnumber := fnumber_from_str f64_from_str_exact (bs x).
